@@ -75,6 +75,9 @@ func judge(seq []Op) verdict {
 		if exp[i] == got[i] || (exp[i] == "*" && got[i] != "") {
 			continue // "*": write on an object created without type arguments — run, not judged
 		}
+		if alts := strings.Split(exp[i], "|"); len(alts) > 1 && (alts[0] == got[i] || alts[1] == got[i]) {
+			continue // an under-/over-applied instantiation: refused, or an object that enforces the given argument
+		}
 		v.Step = i
 		switch {
 		case got[i] == "X" || exp[i] == "N" || got[i] == "N":
@@ -107,6 +110,10 @@ func cloneSeq(s []Op) []Op {
 // measure orders sequences: shorter, fewer Pair instances, fewer method routes, simpler kinds in
 // order of appearance, `new`s earlier, writes ordered by instance.
 func measure(s []Op) []int {
+	nAtt, nSite := 0, 0
+	if siteMode(s) {
+		nSite = 1
+	}
 	nPair, nMeth, nSub, nNest, nForm := 0, 0, 0, 0, 0 // nMeth: sum of the route ranks (prop 0, meth 1, … clos 7)
 	var nRanks, wRanks, newPos, wInst, agents []int
 	for i, o := range s {
@@ -135,6 +142,11 @@ func measure(s []Op) []int {
 				nRanks = append(nRanks, kindRank(a))
 			}
 			newPos = append(newPos, i)
+		} else if o.Att != "" {
+			nAtt += 1 + map[string]int{"under": 0, "over": 1, "boom": 2}[o.Att]
+			for _, a := range o.Args {
+				nRanks = append(nRanks, kindRank(a))
+			}
 		} else {
 			nMeth += routeRank(o.Route)
 			nForm += formRank(o.Store)
@@ -150,7 +162,7 @@ func measure(s []Op) []int {
 			}
 		}
 	}
-	m := []int{nNest, len(s), visRank(visOf(s)), nPair, nMeth, nForm, nSub, len(nRanks)}
+	m := []int{nNest, len(s), visRank(visOf(s)), nSite, nAtt, nPair, nMeth, nForm, nSub, len(nRanks)}
 	m = append(m, nRanks...) // type arguments in creation order
 	m = append(m, wRanks...) // written kinds in write order
 	m = append(m, newPos...)
@@ -185,7 +197,7 @@ func dropOp(s []Op, i int) []Op {
 		if j == i {
 			continue
 		}
-		if !o.New {
+		if !o.New && o.Att == "" {
 			if o.Inst >= idx && o.Inst < idx+w {
 				continue
 			}
@@ -251,7 +263,7 @@ func candidates(s []Op) [][]Op {
 					}
 					c2 := []Op{}
 					for _, q := range c {
-						if !q.New && q.Inst == idx+1 {
+						if !q.New && q.Att == "" && q.Inst == idx+1 {
 							if q.Member != members["Pair"][keep] {
 								continue
 							}
@@ -289,7 +301,7 @@ func candidates(s []Op) [][]Op {
 						if len(o.Args) > keep {
 							p.Args = []string{o.Args[keep]}
 						}
-					} else if !p.New && p.Inst == inst {
+					} else if !p.New && p.Att == "" && p.Inst == inst {
 						if p.Member != m {
 							continue
 						}
@@ -324,7 +336,7 @@ func candidates(s []Op) [][]Op {
 					p.Args = []string{p.Args[keep]}
 				}
 				any = true
-			} else if !p.New && isPair[p.Inst] {
+			} else if !p.New && p.Att == "" && isPair[p.Inst] {
 				if p.Member != m {
 					continue
 				}
@@ -348,8 +360,16 @@ func candidates(s []Op) [][]Op {
 			out = append(out, c)
 		}
 	}
+	// shared `new` sites -> one site per op (only without attempts, which exist at sites only)
+	if siteMode(s) {
+		c := cloneSeq(s)
+		for i := range c {
+			c[i].Site = false
+		}
+		out = append(out, c)
+	}
 	for i, o := range s {
-		if !o.New {
+		if !o.New && o.Att == "" {
 			// a simpler route for the same store (an agent is kept only by another agent route) …
 			for _, r := range routeOrder[:min(routeRank(o.Route), len(routeOrder))] {
 				c := cloneSeq(s)
@@ -381,7 +401,7 @@ func candidates(s []Op) [][]Op {
 		}
 	}
 	for i, o := range s {
-		if o.New {
+		if o.New || o.Att != "" {
 			for ai, a := range o.Args {
 				for _, k := range allKinds[:kindRank(a)] {
 					if k == "W" {
@@ -416,7 +436,7 @@ func candidates(s []Op) [][]Op {
 				return k
 			}
 			for i := range c {
-				if c[i].New {
+				if c[i].New || c[i].Att != "" {
 					for ai := range c[i].Args {
 						c[i].Args[ai] = sw(c[i].Args[ai])
 						if c[i].Args[ai] == "W" {
@@ -720,6 +740,16 @@ func countSeqs(a alpha, maxLen int) map[int]int64 {
 		}
 	}
 	nv := int64(len(a.Vals) * len(a.stores()))
+	var noInst int64 // site histories: attempts that leave no instance (boom per typed new, under per Pair<A>, over per Box<A,B>)
+	if a.Sites {
+		noInst = tb + tp
+		if tp > 0 {
+			noInst += int64(len(a.Types))
+		}
+		if tb > 0 {
+			noInst += int64(len(a.Types) * len(a.Types))
+		}
+	}
 	// state: (boxes, pairs) live
 	type st struct{ b, p int }
 	cur := map[st]int64{{0, 0}: 1}
@@ -743,8 +773,8 @@ func countSeqs(a alpha, maxLen int) map[int]int64 {
 			}
 			b, p := int64(s.b), int64(s.p)
 			wr := b*nv*(simple+agAll*(b+p)+agSame*b) + p*2*nv*(simple+agAll*(b+p)+agSame*p)
-			if wr > 0 {
-				nxt[s] += c * wr
+			if wr+noInst > 0 {
+				nxt[s] += c * (wr + noInst)
 			}
 		}
 		var tot int64
@@ -767,7 +797,7 @@ type plan struct {
 
 func main() {
 	if pool.IsWorker() {
-		pool.Serve(map[string]pool.Handler{"seq": seqWorker, "short": shortWorker, "table": tableWorker, "conc": concWorker})
+		pool.Serve(map[string]pool.Handler{"seq": seqWorker, "short": shortWorker, "table": tableWorker, "conc": concWorker, "builtin": builtinWorker})
 	}
 	c := ev.New("C19")
 	defer runner.Cleanup()
@@ -799,6 +829,9 @@ func main() {
 		{"agents-full3-priv+raw", alpha{Generics: bp, Types: three, Vals: three, Routes: inClass, Raw: true, Vis: "priv"}, 3},
 		{"agents-full3-prot+raw", alpha{Generics: bp, Types: three, Vals: three, Routes: inClass, Raw: true, Vis: "prot"}, 3},
 		{"agents-full3-pub+raw", alpha{Generics: bp, Types: three, Vals: three, Routes: routeOrder, Raw: true}, 3},
+		// one `new G<…>` site executed several times (function called again), failed first attempts, wrong arity
+		{"sites-full3", alpha{Generics: bp, Types: three, Vals: three, Routes: both, Sites: true}, 3},
+		{"sites-box2", alpha{Generics: bx, Types: two, Vals: two, Routes: both, Sites: true}, 4},
 		// … × the syntax of the store statement (formOrder)
 		{"forms-box3-pub", alpha{Generics: bx, Types: three, Vals: three, Routes: routeOrder, Stores: formOrder}, 3},
 		{"forms-box3-prot", alpha{Generics: bx, Types: three, Vals: three, Routes: inClass, Stores: formOrder, Vis: "prot"}, 3},
@@ -808,7 +841,7 @@ func main() {
 		{"agents-box3-priv", alpha{Generics: bx, Types: three, Vals: three, Routes: inClass, Vis: "priv"}, 4},
 		{"nested-box-3kinds", alpha{Generics: bx, Types: three, Vals: three, Routes: both, Nested: true}, 3},
 		{"box+pair-2kinds+raw", alpha{Generics: bp, Types: two, Vals: two, Routes: both, Raw: true}, 4},
-		{"pair-3kinds", alpha{Generics: []string{"Pair"}, Types: three, Vals: three, Routes: both}, 4},
+		// (pair-3kinds ≤4, 161 388 histories, moved to thorough (pair-3kinds+raw) to pay for sites-* and the built-in containers)
 	}
 	if !c.Quick() {
 		// thorough: the full alphabet to length 4; longer histories on sub-alphabets; the foreign class W as a value
@@ -830,6 +863,9 @@ func main() {
 			{"forms-full2-prot", alpha{Generics: bp, Types: two, Vals: two, Routes: inClass, Stores: formOrder, Vis: "prot"}, 3},
 			{"forms-full3-pub+raw", alpha{Generics: bp, Types: three, Vals: three, Routes: routeOrder, Stores: formOrder, Raw: true}, 3},
 			{"forms-box2-pub", alpha{Generics: bx, Types: two, Vals: two, Routes: []string{"prop", "meth", "pour"}, Stores: formOrder}, 4},
+			{"sites-full4+raw", alpha{Generics: bp, Types: four, Vals: four, Routes: both, Sites: true, Raw: true}, 3},
+			{"sites-box3", alpha{Generics: bx, Types: three, Vals: three, Routes: both, Sites: true}, 4},
+			{"sites-pair2", alpha{Generics: []string{"Pair"}, Types: two, Vals: two, Routes: both, Sites: true}, 4},
 			{"box-4kinds+W", alpha{Generics: bx, Types: four, Vals: allKinds, Routes: both}, 5},
 			{"box-2kinds+raw", alpha{Generics: bx, Types: two, Vals: two, Routes: both, Raw: true}, 5},
 			{"pair-2kinds", alpha{Generics: []string{"Pair"}, Types: []string{"int", "U"}, Vals: []string{"int", "U"}, Routes: both}, 5},
@@ -850,7 +886,7 @@ func main() {
 	}
 	expected := map[string]map[int]int64{}
 	const plen = 2
-	var total, later, redRuns, tableN, concExecs, concScen int64
+	var total, later, redRuns, tableN, builtinN, concExecs, concScen int64
 	got := map[string]map[int]int64{}
 	outcomes := map[string]int{}
 	run := func(shards []pool.Shard, plan string) {
@@ -872,6 +908,12 @@ func main() {
 				} else {
 					tableN += r.N
 				}
+				for k, n := range r.Outcomes {
+					outcomes[k] += n
+				}
+			case "bcount":
+				builtinN += r.N
+				redRuns += r.RedRuns
 				for k, n := range r.Outcomes {
 					outcomes[k] += n
 				}
@@ -903,6 +945,14 @@ func main() {
 	if n := int64(len(tableCases())); tableN != n {
 		c.HarnessError("table: ran %d cases, the table has %d", tableN, n)
 	}
+	// built-in generic containers (std/loop List<T>, HashMap<K,V>): every method sequence up to bMax, then probes
+	bMax := 3
+	run(bShards(bMax, c.Seed), "")
+	if want := bCount(bMax); builtinN != want {
+		c.HarnessError("builtin: ran %d cases, the space has %d", builtinN, want)
+	}
+	c.Set("builtin_container_cases", map[string]any{"cases": builtinN, "max_ops": bMax, "list_ops": listOps, "hashmap_ops": mapOps})
+	total += builtinN
 	// concurrent clause: coroutines instantiating Box<T> with different arguments under the scheduler
 	var cshards []pool.Shard
 	for _, sc := range concScenarios(c.Quick()) {
@@ -969,8 +1019,9 @@ func main() {
 
 func replay(c *ev.Check) {
 	var cs struct {
-		Ops  []Op  `json:"ops"`
-		Seed int64 `json:"seed"`
+		Ops     []Op   `json:"ops"`
+		Seed    int64  `json:"seed"`
+		Builtin *bcase `json:"builtin"`
 	}
 	key, err := ev.LoadReplay(c.Replay, &cs)
 	if err != nil {
@@ -979,6 +1030,20 @@ func replay(c *ev.Check) {
 		c.Finish(1, 1, 1, "replay")
 	}
 	cc = newConcr(cs.Seed)
+	if cs.Builtin != nil {
+		src, _ := cc.bScript(*cs.Builtin)
+		fmt.Println(src)
+		for i := 0; i < 16; i++ { // a deviation may depend on Go map iteration order
+			cl, _, exp, got := bJudge(*cs.Builtin)
+			fmt.Printf("run %d: expected %s observed %s\n", i, strings.Join(exp, " | "), strings.Join(got, " | "))
+			if cl != "" {
+				c.Fail(key, strings.SplitN(cl, ":", 2)[0], 0, cs, cs.Builtin.String())
+				break
+			}
+		}
+		c.Finish(1, 1, 1, "replay")
+		return
+	}
 	fmt.Println(cc.script(cs.Ops))
 	v := judge(cs.Ops)
 	fmt.Printf("history:  %s\nexpected: %s\nobserved: %s\n", seqString(cs.Ops), strings.Join(v.Exp, " "), strings.Join(v.Got, " "))
